@@ -1,3 +1,65 @@
-(* C13 property theorems (filled in below). *)
-From Coq Require Import ZArith.
-From C13 Require Import Model.
+(* C13 property theorems.  Nothing but statements closed by `exact`, each followed by Print Assumptions.
+   cong n a b  is  a = b (mod n)  (n | a - b).  The statements are the `..._stmt` definitions of the Proofs files.
+   `_partial` = a finite kernel sweep (bound in the statement) of a statement whose full form is kept in ProofsSweep.v. *)
+From Coq Require Import ZArith Znumtheory List.
+From C13 Require Import Model ProofsBase ProofsSqrt ProofsLift ProofsNumTheo ProofsSweep.
+Local Open Scope Z_scope.
+
+Theorem C13_powmod_is_power_mod : forall n a e, 0 < n -> 0 <= e -> powmod a e n = a ^ e mod n.   Proof. exact powmod_spec. Qed.
+Print Assumptions C13_powmod_is_power_mod.
+Theorem C13_invmod_checked_inverse : forall a n, fst (egcd a n) = 1 -> cong n (a * invmod a n) 1.  Proof. exact invmod_sound. Qed.
+Print Assumptions C13_invmod_checked_inverse.
+Theorem C13_sqrt_p_3_mod_4 : Sqrt_3mod4_stmt.                        Proof. exact sqrt_3mod4_correct. Qed.
+Print Assumptions C13_sqrt_p_3_mod_4.
+Theorem C13_sqrt_atkin_5_mod_8 : Sqrt_atkin_stmt.                    Proof. exact sqrt_atkin_correct. Qed.
+Print Assumptions C13_sqrt_atkin_5_mod_8.
+Theorem C13_sqrt_mueller_9_mod_16 : Sqrt_mueller_stmt.               Proof. exact sqrt_mueller_correct. Qed.
+Print Assumptions C13_sqrt_mueller_9_mod_16.
+Theorem C13_tonelli_shanks_invariant : Tonelli_sound_stmt.           Proof. exact tonelli_sound. Qed.
+Print Assumptions C13_tonelli_shanks_invariant.
+Theorem C13_sqrootmodprime_sound : Sqrootmodprime_sound_stmt.        Proof. exact sqrootmodprime_sound. Qed.
+Print Assumptions C13_sqrootmodprime_sound.
+Theorem C13_hensel_lift_step : Hensel_step_stmt.                     Proof. exact hensel_step. Qed.
+Print Assumptions C13_hensel_lift_step.
+Theorem C13_one_more_lift_step : Onemore_step_stmt.                  Proof. exact onemore_step. Qed.
+Print Assumptions C13_one_more_lift_step.
+Theorem C13_two_adic_lift_step : Twolift_step_stmt.                  Proof. exact twolift_step. Qed.
+Print Assumptions C13_two_adic_lift_step.
+Theorem C13_two_linear_loop_invariant : Twolinear_loop_stmt.         Proof. exact twolinear_loop_inv. Qed.
+Print Assumptions C13_two_linear_loop_invariant.
+Theorem C13_sqroottwolinear_correct : Sqroottwolinear_stmt.          Proof. exact sqroottwolinear_correct. Qed.
+Print Assumptions C13_sqroottwolinear_correct.
+Theorem C13_power_of_two_odd_k_fixup : Pow2_fixup_stmt.              Proof. exact pow2_fixup. Qed.
+Print Assumptions C13_power_of_two_odd_k_fixup.
+Theorem C13_crt_recombination_of_roots : Crt_combine_stmt.           Proof. exact crt_combine. Qed.
+Print Assumptions C13_crt_recombination_of_roots.
+Theorem C13_sum_of_squares_with_nonresidue : Sos_nonres_stmt.        Proof. exact sos_nonres_algebra. Qed.
+Print Assumptions C13_sum_of_squares_with_nonresidue.
+Theorem C13_phi_formula : Phi_formula_stmt.                          Proof. exact phi_formula. Qed.
+Print Assumptions C13_phi_formula.
+Theorem C13_phi_small : Phi_small_stmt.                              Proof. exact phi_small. Qed.
+Print Assumptions C13_phi_small.
+Theorem C13_mobius_from_exponents : Mobius_stmt.                     Proof. exact mobius_spec. Qed.
+Print Assumptions C13_mobius_from_exponents.
+Theorem C13_order_certificate_is_least : Order_minimal_stmt.         Proof. exact order_minimal. Qed.
+Print Assumptions C13_order_certificate_is_least.
+Theorem C13_order_strip_loop_sound : Strip_while_stmt.               Proof. exact strip_while_sound. Qed.
+Print Assumptions C13_order_strip_loop_sound.
+Theorem C13_is_prim_root_tests : Is_prim_root_stmt.                  Proof. exact is_prim_root_spec. Qed.
+Print Assumptions C13_is_prim_root_tests.
+Theorem C13_prim_root_has_order_phi : Prim_root_order_stmt.          Proof. exact prim_root_order. Qed.
+Print Assumptions C13_prim_root_has_order_phi.
+Theorem C13_phi_counts_units_partial : Phi_count_stmt.               Proof. exact phi_count_sweep. Qed.
+Print Assumptions C13_phi_counts_units_partial.
+Theorem C13_lambda_is_group_exponent_partial : Lambda_exponent_stmt. Proof. exact lambda_exponent_sweep. Qed.
+Print Assumptions C13_lambda_is_group_exponent_partial.
+Theorem C13_order_is_least_exponent_partial : Order_least_stmt.      Proof. exact order_least_sweep. Qed.
+Print Assumptions C13_order_is_least_exponent_partial.
+Theorem C13_sqrootmodprime_end_to_end_partial : Sqrootmodprime_sweep_stmt.          Proof. exact sqrootmodprime_sweep. Qed.
+Print Assumptions C13_sqrootmodprime_end_to_end_partial.
+Theorem C13_sqrootmodprimepower_end_to_end_partial : Sqrootmodprimepower_sweep_stmt. Proof. exact sqrootmodprimepower_sweep. Qed.
+Print Assumptions C13_sqrootmodprimepower_end_to_end_partial.
+Theorem C13_brillhart_two_squares_partial : Brillhart_sweep_stmt.    Proof. exact brillhart_sweep. Qed.
+Print Assumptions C13_brillhart_two_squares_partial.
+Theorem C13_logp_bracket_partial : Logp_sweep_stmt.                  Proof. exact logp_sweep. Qed.
+Print Assumptions C13_logp_bracket_partial.
